@@ -357,6 +357,9 @@ class Evaluator:
             if body is None:
                 for k_, v_ in _unpassed_new_defaults(self.fi).items():
                     st.env[k_] = v_
+                for k_, e_ in _enclosing_bindings(self.fi).items():
+                    if k_ not in st.env:
+                        st.env[k_] = Sym(u(e_))  # a name the enclosing function binds once to a memoised function of its parameter
             if params:
                 st.env.update(params)
             try:
@@ -1492,6 +1495,60 @@ def _is_class_name(name, fi):
         if any(name in m.classes for m in repo.modules.values()):
             return True
     return bool(re.fullmatch(r"[A-Z][A-Za-z0-9]*[a-z][A-Za-z0-9]*", name)) and name not in ("None", "True", "False")
+
+
+_ENCL: dict = {}
+
+
+def _enclosing_bindings(fi):
+    """{name: expr} for the free names of a nested function that the enclosing function binds exactly once, by a plain
+    top-level `name = <call or attribute of its own parameters / self>` that precedes the nested definition and that
+    nothing re-binds: inside the nested function such a name IS that expression (hoisting `self.f(x)` out of a closure
+    into a local of the enclosing function changes nothing when f is a function of its argument)"""
+    if fi is None or fi.parent is None:
+        return {}
+    key = (fi.module.repo.root, fi.key)
+    if key in _ENCL:
+        return _ENCL[key]
+    out = {}
+    _ENCL[key] = out
+    par = fi.parent.node
+    bound_here = {a.arg for a in fi.node.args.posonlyargs + fi.node.args.args + fi.node.args.kwonlyargs}
+    for n in ast.walk(fi.node):
+        if isinstance(n, ast.Name) and isinstance(n.ctx, ast.Store):
+            bound_here.add(n.id)
+    free = {n.id for n in ast.walk(fi.node) if isinstance(n, ast.Name) and isinstance(n.ctx, ast.Load)} - bound_here
+    pparams = {a.arg for a in par.args.posonlyargs + par.args.args + par.args.kwonlyargs}
+    stores = {}
+    for n in ast.walk(par):
+        if isinstance(n, ast.Name) and isinstance(n.ctx, ast.Store):
+            stores[n.id] = stores.get(n.id, 0) + 1
+    reb = {x for n in ast.walk(par) if isinstance(n, (ast.Nonlocal, ast.Global)) for x in n.names}
+    for i, s_ in enumerate(par.body):
+        if s_ is fi.node:
+            break
+        if isinstance(s_, ast.Assign) and len(s_.targets) == 1 and isinstance(s_.targets[0], ast.Name):
+            nm = s_.targets[0].id
+            if nm in free and stores.get(nm) == 1 and nm not in reb and isinstance(s_.value, ast.Call):
+                names = {x.id for x in ast.walk(s_.value) if isinstance(x, ast.Name)}
+                if names <= pparams | {"self"} and all(stores.get(x, 0) == 0 for x in names & pparams) and _is_memo_call(fi, s_.value):
+                    out[nm] = s_.value
+    return out
+
+
+def _is_memo_call(fi, call):
+    """`self.m(arg)` where m is a memoised function of its argument (see review._is_memo_getter)"""
+    if not (isinstance(call.func, ast.Attribute) and isinstance(call.func.value, ast.Name) and call.func.value.id == "self" and len(call.args) == 1 and not call.keywords):
+        return False
+    cls = fi.cls or (fi.parent.cls if fi.parent is not None else None)
+    if cls is None:
+        return False
+    m = cls.find_method(call.func.attr)
+    if m is None:
+        return False
+    from .review import _is_memo_getter
+
+    return _is_memo_getter(m)
 
 
 _UNPASSED: dict = {}
